@@ -82,7 +82,7 @@ def showCell : Cell → String
   | .rep n h => s!"-{n}.{h}"
 
 def showErr : Err → String
-  | .oob => "!oob" | .undef => "!undef" | .overflow => "!overflow" | .exit => "!exit"
+  | .oob => "!oob" | .undef => "!undef" | .exit => "!exit"
   | .nan => "!nan" | .fuel => "!fuel"
 
 def showRes {α} (f : α → String) : Res α → String
